@@ -285,11 +285,18 @@ func yieldPlans(ir *injRun, k KCase, b *Built) []*Plan {
 
 func checkC01(c *Ctx, k KCase) *Verdict {
 	v := &Verdict{Features: caseFeatures(k.Spec)}
-	o := runExec(c, k, v, false, func(ir *injRun, k KCase, b *Built) []*Plan {
+	// one build of the yield-instrumented emitted code serves both the provider-granular plans
+	// (Yields off: yield points are no-ops) and the statement-granular ones
+	o := runExecY(c, k, v, false, true, func(ir *injRun, k KCase, b *Built) []*Plan {
 		if !ir.r.HasAsync {
 			return []*Plan{{Policy: "fifo", CancelAt: -2}}
 		}
-		return faultFreePlans(ir, k)
+		ps := faultFreePlans(ir, k)
+		if th, _ := threadsOf(b, ir.name); th >= 2 {
+			ps = append(ps, yieldPlans(ir, k, b)...)
+			v.Features["yield-run"] = true
+		}
+		return ps
 	})
 	if o == nil {
 		return v
@@ -297,32 +304,6 @@ func checkC01(c *Ctx, k KCase) *Verdict {
 	defer o.b.Close()
 	if res := c01Oracle(c, o, v, false); res != nil {
 		return res
-	}
-	// statement-granular schedules on the yield-instrumented emitted code
-	anyThreads := false
-	for _, ir := range o.runs {
-		if th, _ := threadsOf(o.b, ir.name); th >= 2 {
-			anyThreads = true
-		}
-	}
-	if anyThreads {
-		v3 := &Verdict{Features: v.Features}
-		o3 := runExecY(c, k, v3, false, true, func(ir *injRun, k KCase, b *Built) []*Plan {
-			if th, _ := threadsOf(b, ir.name); th < 2 {
-				return nil
-			}
-			return yieldPlans(ir, k, b)
-		})
-		if o3 != nil {
-			defer o3.b.Close()
-			v.Evals += v3.Evals
-			v.Features["yield-run"] = true
-			if res := c01Oracle(c, o3, v, false); res != nil {
-				return res
-			}
-		} else if v3.Discard != "" && v3.Discard != "no-plans" {
-			c.Rep.Discard("yield:" + v3.Discard)
-		}
 	}
 	// free-running -race executions of the same case
 	anyAsync := false
@@ -422,9 +403,15 @@ func TestWitnessC01(t *testing.T) { runWitnesses(t, "C01", checkC01, nil) }
 
 func checkC03(c *Ctx, k KCase) *Verdict {
 	v := &Verdict{Features: caseFeatures(k.Spec)}
-	o := runExec(c, k, v, false, func(ir *injRun, k KCase, b *Built) []*Plan {
+	o := runExecY(c, k, v, false, true, func(ir *injRun, k KCase, b *Built) []*Plan {
 		ps := faultFreePlans(ir, k)
 		ps = append(ps, &Plan{Policy: "holdasync", CancelAt: -2})
+		if th, _ := threadsOf(b, ir.name); th >= 2 {
+			// statement-granular schedules: a goroutine held between its last close and its
+			// return must still be joined before the injector returns
+			ps = append(ps, yieldPlans(ir, k, b)...)
+			v.Features["yield-run"] = true
+		}
 		return ps
 	})
 	if o == nil {
@@ -476,33 +463,6 @@ func c03Dynamic(c *Ctx, o *execOutcome, v *Verdict) *Verdict {
 }
 
 func c03Rest(c *Ctx, k KCase, o *execOutcome, v *Verdict) *Verdict {
-	// statement-granular schedules: a goroutine held between its last close and its return must
-	// still be joined before the injector returns
-	multi := false
-	for _, ir := range o.runs {
-		if th, _ := threadsOf(o.b, ir.name); th >= 2 {
-			multi = true
-		}
-	}
-	if multi {
-		v3 := &Verdict{Features: v.Features}
-		o3 := runExecY(c, k, v3, false, true, func(ir *injRun, k KCase, b *Built) []*Plan {
-			if th, _ := threadsOf(b, ir.name); th < 2 {
-				return nil
-			}
-			return yieldPlans(ir, k, b)
-		})
-		if o3 != nil {
-			defer o3.b.Close()
-			v.Evals += v3.Evals
-			v.Features["yield-run"] = true
-			if res := c03Dynamic(c, o3, v); res != nil {
-				return res
-			}
-		} else if v3.Discard != "" && v3.Discard != "no-plans" {
-			c.Rep.Discard("yield:" + v3.Discard)
-		}
-	}
 	// structural invariants on the emitted code
 	for name := range o.runs {
 		if msg := structuralC03(o.b, name); msg != "" {
@@ -677,31 +637,21 @@ func reps(c *Ctx) int {
 
 func checkC06(c *Ctx, k KCase) *Verdict {
 	v := &Verdict{Features: caseFeatures(k.Spec)}
-	o := runExec(c, k, v, false, func(ir *injRun, k KCase, b *Built) []*Plan { return faultPlans(ir, k, reps(c)) })
+	o := runExecY(c, k, v, false, true, func(ir *injRun, k KCase, b *Built) []*Plan {
+		ps := faultPlans(ir, k, reps(c))
+		if th, _ := threadsOf(b, ir.name); th >= 2 {
+			// the same faults at statement granularity (yield-instrumented emitted code)
+			ps = append(ps, faultYieldPlans(ir, k, b, c.Thorough())...)
+			v.Features["yield-run"] = true
+		}
+		return ps
+	})
 	if o == nil {
 		return v
 	}
 	defer o.b.Close()
 	if res := c06Oracle(c, o, v); res != nil {
 		return res
-	}
-	// the same faults at statement granularity (yield-instrumented emitted code)
-	v3 := &Verdict{Features: v.Features}
-	o3 := runExecY(c, k, v3, false, true, func(ir *injRun, k KCase, b *Built) []*Plan {
-		if th, _ := threadsOf(b, ir.name); th < 2 {
-			return nil
-		}
-		return faultYieldPlans(ir, k, b, c.Thorough())
-	})
-	if o3 != nil {
-		defer o3.b.Close()
-		v.Evals += v3.Evals
-		v.Features["yield-run"] = true
-		if res := c06Oracle(c, o3, v); res != nil {
-			return res
-		}
-	} else if v3.Discard != "" && v3.Discard != "no-plans" {
-		c.Rep.Discard("yield:" + v3.Discard)
 	}
 	v.Sample = describeCase(o.b)
 	return v
@@ -814,11 +764,28 @@ func TestWitnessC06(t *testing.T) { runWitnesses(t, "C06", checkC06, nil) }
 
 func checkC07(c *Ctx, k KCase) *Verdict {
 	v := &Verdict{Features: caseFeatures(k.Spec)}
-	o := runExec(c, k, v, false, func(ir *injRun, k KCase, b *Built) []*Plan {
+	o := runExecY(c, k, v, false, true, func(ir *injRun, k KCase, b *Built) []*Plan {
 		if !ir.r.HasAsync {
 			return nil
 		}
-		return cancelPlans(ir, k, reps(c))
+		ps := cancelPlans(ir, k, reps(c))
+		if th, _ := threadsOf(b, ir.name); th >= 2 {
+			// cancellation at statement granularity: after every release of the yield-instrumented code
+			n := len(loggedNeeded(ir.r))
+			for _, d := range b.Yields {
+				if strings.HasPrefix(d, ir.name+" ") {
+					n++
+				}
+			}
+			for at := 0; at < n; at++ {
+				ps = append(ps, &Plan{Policy: "fifo", CancelAt: at, Yields: true, Repeat: 2})
+				if c.Thorough() || at%2 == 0 {
+					ps = append(ps, &Plan{Policy: "lifo", CancelAt: at, Yields: true, Repeat: 2})
+				}
+			}
+			v.Features["yield-run"] = true
+		}
+		return ps
 	})
 	if o == nil {
 		return v
@@ -826,37 +793,6 @@ func checkC07(c *Ctx, k KCase) *Verdict {
 	defer o.b.Close()
 	if res := c07Oracle(c, o, v); res != nil {
 		return res
-	}
-	// cancellation at statement granularity: after every release of the yield-instrumented code
-	v3 := &Verdict{Features: v.Features}
-	o3 := runExecY(c, k, v3, false, true, func(ir *injRun, k KCase, b *Built) []*Plan {
-		if th, _ := threadsOf(b, ir.name); th < 2 {
-			return nil
-		}
-		n := len(loggedNeeded(ir.r))
-		for _, d := range b.Yields {
-			if strings.HasPrefix(d, ir.name+" ") {
-				n++
-			}
-		}
-		var ps []*Plan
-		for at := 0; at < n; at++ {
-			ps = append(ps, &Plan{Policy: "fifo", CancelAt: at, Yields: true, Repeat: 2})
-			if c.Thorough() || at%2 == 0 {
-				ps = append(ps, &Plan{Policy: "lifo", CancelAt: at, Yields: true, Repeat: 2})
-			}
-		}
-		return ps
-	})
-	if o3 != nil {
-		defer o3.b.Close()
-		v.Evals += v3.Evals
-		v.Features["yield-run"] = true
-		if res := c07Oracle(c, o3, v); res != nil {
-			return res
-		}
-	} else if v3.Discard != "" && v3.Discard != "no-plans" {
-		c.Rep.Discard("yield:" + v3.Discard)
 	}
 	v.Sample = describeCase(o.b)
 	return v
@@ -935,7 +871,7 @@ func TestWitnessC07(t *testing.T) { runWitnesses(t, "C07", checkC07, nil) }
 
 func checkC08(c *Ctx, k KCase) *Verdict {
 	v := &Verdict{Features: caseFeatures(k.Spec)}
-	o := runExec(c, k, v, false, func(ir *injRun, k KCase, b *Built) []*Plan {
+	o := runExecY(c, k, v, false, true, func(ir *injRun, k KCase, b *Built) []*Plan {
 		if !ir.r.HasAsync {
 			return nil
 		}
@@ -943,6 +879,11 @@ func checkC08(c *Ctx, k KCase) *Verdict {
 		ps := faultPlans(ir, k, r)
 		ps = append(ps, cancelPlans(ir, k, r)...)
 		ps = append(ps, &Plan{Policy: "fifo", CancelAt: -2}, &Plan{Policy: "lifo", CancelAt: -2})
+		if th, _ := threadsOf(b, ir.name); th >= 2 {
+			ps = append(ps, faultYieldPlans(ir, k, b, c.Thorough())...)
+			ps = append(ps, yieldPlans(ir, k, b)...)
+			v.Features["yield-run"] = true
+		}
 		return ps
 	})
 	if o == nil {
@@ -951,25 +892,6 @@ func checkC08(c *Ctx, k KCase) *Verdict {
 	defer o.b.Close()
 	if res := c08Oracle(c, o, v); res != nil {
 		return res
-	}
-	v3 := &Verdict{Features: v.Features}
-	o3 := runExecY(c, k, v3, false, true, func(ir *injRun, k KCase, b *Built) []*Plan {
-		if th, _ := threadsOf(b, ir.name); th < 2 {
-			return nil
-		}
-		ps := faultYieldPlans(ir, k, b, c.Thorough())
-		ps = append(ps, yieldPlans(ir, k, b)...)
-		return ps
-	})
-	if o3 != nil {
-		defer o3.b.Close()
-		v.Evals += v3.Evals
-		v.Features["yield-run"] = true
-		if res := c08Oracle(c, o3, v); res != nil {
-			return res
-		}
-	} else if v3.Discard != "" && v3.Discard != "no-plans" {
-		c.Rep.Discard("yield:" + v3.Discard)
 	}
 	v.Sample = describeCase(o.b)
 	return v
